@@ -1,5 +1,5 @@
 """Rule registry: name -> callable(ctx, prop) -> RuleResult | [RuleResult]."""
-from . import trav, exh, backend, names, fields, compiler, memory, purity, determinism, patterns, unify, provenance, simplify, frontend, forwarding
+from . import trav, exh, backend, names, fields, compiler, memory, purity, determinism, patterns, unify, provenance, simplify, frontend, forwarding, guard, layer
 
 
 def _trav_scoped(classes, name):
@@ -21,6 +21,8 @@ RULES = {
     "TRAV@C09": _trav_scoped(TRAV_C09, "TRAV"),
     "TRAV@C15": _trav_scoped(TRAV_C15, "TRAV"),
     "TRAV@C12": _trav_scoped(["DoSimplify", "_DoNormalize"], "TRAV"),
+    "TRAV@C01": _trav_scoped(["GetReads", "GetReadConfigs", "GetWrites", "GetWriteConfigs", "GetLoopIters", "FreeVars", "Alpha_Rename", "SubstArgs", "LoopIR_Dependencies", "_FreeVars", "_Is_Alloc_Free", "CheckFoldBuffer", "_OverApproxEffects", "Find_RHS", "Cursor_Rewrite", "DoSimplify", "_DoNormalize", "DoLiftAlloc", "DoAddUnsafeGuard", "DoPartialEval", "BuildEnv", "BuildEnv_after"], "TRAV"),
+    "TRAV@C04": _trav_scoped(["FreeVars", "Alpha_Rename", "SubstArgs", "_FreeVars", "_Is_Alloc_Free"], "TRAV"),
     "TRAV@C03": _trav_scoped(["_Check_Aliasing_Helper"], "TRAV"),
     "TRAV@C05": _trav_scoped(["_Find_Mod_Div_Symbols"], "TRAV"),
     "TRAVBASE": trav.rule_travbase,
@@ -65,6 +67,11 @@ RULES = {
     "UFOWN": provenance.rule_ufown,
     "EQVSHAPE": provenance.rule_eqvshape,
     "NOPROV": provenance.rule_noprov,
+    "GUARD": guard.rule_guard,
+    "LAYER": layer.rule_layer,
+    "VERDICT": layer.rule_verdict,
+    "VERDICTUSE": layer.rule_verdictuse,
+    "BINDERS": layer.rule_binders,
     "FWDTHREAD": forwarding.rule_fwdthread,
     "FWDHELPERS": forwarding.rule_fwdhelpers,
     "FWDPRESENT": provenance.rule_fwdpresent,
